@@ -301,3 +301,50 @@ def s_family(cb: int, ca: int, cc: int, l1: int, l2: int, is_async: bool) -> boo
         return _family_view(shared, LEAVES[l2], is_async) == _family_view(fresh, LEAVES[l2], is_async)
 
     return untraced(run)
+
+
+# ---- chains entered from inside a block of another chain ------------------------------------------
+OUTER = {
+    "O0": "{% extends 'O1' %}{% block x %}[{% include 'P0' %}|{% include 'Q0' %}]{% endblock %}{% block y %}Y{{ block.super }}{% endblock %}",
+    "O1": "<o>{% block x %}xd{% endblock %}|{% block y %}yd{% include 'Q0' %}{% endblock %}|{% block z %}zd{% endblock %}</o>",
+}
+
+
+@cond(
+    pre=["0 <= ca < 32", "0 <= cq < 32"],
+    timeout=300,
+    shard={"cb": list(range(32))},
+    covers="a page that extends a parent includes, from inside its block overrides and from a parent's default block, two other chains (P0 and Q0, both extending one shared parent B1 and using the same block names as the page): each included chain renders its own reference page, the page's blocks after the includes still resolve to the page's overrides (block.super included), and rendering the page twice gives the same text; sync and async, caching loader",
+    bounds="shared parent configuration from 32 shards x two leaf configurations 32 x 32 (solver-enumerated); fixed enclosing page",
+    grid=lambda: [(cb, ca, cq) for cb in (5, 9, 21, 15) for ca in (5, 0, 26, 10) for cq in (0, 5, 9)],
+)
+def s_nested_chains(cb: int, ca: int, cq: int) -> bool:
+    ca, cq = concrete_int(ca, 0, 31), concrete_int(cq, 0, 31)
+
+    def run() -> bool:
+        cfg_p, cfg_q = [_cfg(ca), _cfg(cb)], [_cfg(cq), _cfg(cb)]
+        sp, sq = build_sources(cfg_p), build_sources(cfg_q)
+        sources = dict(OUTER)
+        sources["P0"] = sp["T0"].replace("{% extends 'T1' %}", "{% extends 'B1' %}")
+        sources["Q0"] = sq["T0"].replace("{% extends 'T1' %}", "{% extends 'B1' %}")
+        sources["B1"] = sp["T1"]
+        try:
+            rp, rq = reference(cfg_p), reference(cfg_q)
+            want = ("ok", "<o>[" + rp + "|" + rq + "]|Yyd" + rq + "|zd</o>")
+        except _Required:
+            want = ("required", None)
+        for caching in (False, True):
+            env = Environment(loader=(CachingDictLoader if caching else DictLoader)(dict(sources)))
+            for is_async in (False, True, False):
+                try:
+                    t = env.get_template("O0")
+                    got = ("ok", drive(t.render_async()) if is_async else t.render())
+                except RequiredBlockError:
+                    got = ("required", None)
+                except LiquidError:
+                    return False
+                if got != want:
+                    return False
+        return True
+
+    return untraced(run)
